@@ -992,7 +992,7 @@ func init() {
 		cfg := DefaultConfig()
 		cfg.Unbonding = 4 * 3600
 		cfg.ConsUnbonding = 3 * 3600
-		cfg.BlocksPerEpoch = 4
+		cfg.BlocksPerEpoch = 10 // (every epoch block emits two events per launched consumer: keep them few)
 		w := NewWorld(t, cfg)
 		w.rec.Start()
 		w.rec.emit("p", "Scenario", map[string]any{"name": "bulk", "variant": int(seed)}, nil, nil)
